@@ -836,6 +836,9 @@ package schema
 //@ func AnySchema.checkAndConvert(a, data) -> res, err
 //@   ensures err == nil ==> typeOf(res) != type(map[string]any)
 //@   ensures err == nil ==> res != nil
+// only slices and maps are converted to the uncomparable []any / map[any]any: the converted form of anything that can
+// be a map key is itself usable as a map key
+//@   ensures err == nil && kindOf(data) != KindSlice && kindOf(data) != KindMap ==> comparable(typeOf(res))
 //@ func ObjectSchema.Unserialize(o, data) -> result, err
 //@   ensures err == nil && typeOf(result) == type(map[string]any) ==> fresh(result.(map[string]any))
 //@ func ObjectSchema.applySubObjectDefaultValues(o, propertyID, property, rawData)
